@@ -105,8 +105,10 @@ def pair_record(rec_id, fname, area_json, st_json, cell, new_obj, want):
     st2['grid'][cell[0]][cell[1]] = new_obj
     o1, ob1 = observe(fname, area_json, st_json)
     o2, ob2 = observe(fname, area_json, st2)
-    assert o1 == 'ok' and o2 == 'ok', (o1, o2)
-    return {'id': rec_id, 'kind': 'pair', 'want': want, 'fname': fname, 'area': area_json, 'st': st_json, 'st2': st2,
+    raised = not (o1 == 'ok' and o2 == 'ok')
+    if raised:
+        ob1 = ob2 = st_json
+    return {'id': rec_id, 'kind': 'pair', 'raised': raised, 'outcomes': [o1, o2], 'want': want, 'fname': fname, 'area': area_json, 'st': st_json, 'st2': st2,
             'cell': list(cell), 'ob': ob1, 'ob2': ob2}
 
 
@@ -136,8 +138,10 @@ def rot_record(rec_id, fname, area_json, st_json, r, want):
     st2 = rotate_world(st_json, r)
     o1, ob1 = observe(fname, area_json, st_json)
     o2, ob2 = observe(fname, area_json, st2)
-    assert o1 == 'ok' and o2 == 'ok', (o1, o2)
-    return {'id': rec_id, 'kind': 'rot', 'want': want, 'fname': fname, 'area': area_json, 'st': st_json, 'st2': st2,
+    raised = not (o1 == 'ok' and o2 == 'ok')
+    if raised:
+        ob1 = ob2 = st_json
+    return {'id': rec_id, 'kind': 'rot', 'raised': raised, 'outcomes': [o1, o2], 'want': want, 'fname': fname, 'area': area_json, 'st': st_json, 'st2': st2,
             'rot': r, 'ob': ob1, 'ob2': ob2}
 
 
